@@ -88,7 +88,7 @@ class World:
         return w in self.cut
 
     def message(self, w, k):
-        proc_idx, sol, stats_put, stats_final = self.streams[w][k]
+        proc_idx, sol, stats_put, stats_final, _true_final = self.streams[w][k]
         stats = stats_put if self.pickling == "eager" else (stats_final if not self.crashed(w) else self.streams[w][self.avail(w) - 1][2])
         return (proc_idx, None if sol is None else sol.copy(), stats.copy())
 
@@ -268,6 +268,10 @@ class RecordingQueue:
         self.items.append((proc_idx, None if sol is None else np.array(sol, copy=True), np.array(stats, copy=True), stats))
 
 
+WORKER_BUDGET_HIT_LIMIT = 4
+_worker_budget_hits = [0]
+
+
 def worker_stream(solver: BacktrackSolver, target_name: str, args) -> List:
     """Runs the real worker target on a deep copy of the solver (what fork gives the child) and returns its messages."""
     from mc import budget, solvemc
@@ -275,13 +279,26 @@ def worker_stream(solver: BacktrackSolver, target_name: str, args) -> List:
     child = copy.deepcopy(solver)
     q = RecordingQueue(child.statistics)
     solvemc.ensure_watch()
-    budget.start(20_000_000)
+    # same calibrated shape as SolveMC's step budget (25 x the largest terminating run of the quick universe); a tree on which
+    # workers do not terminate would otherwise cost minutes per case: after WORKER_BUDGET_HIT_LIMIT exhausted budgets in this
+    # process the remaining worker runs fail at once (never happens where the properties hold)
+    n_assign = 1
+    for lo, hi in child.problem.shr_domains_lst:
+        n_assign = min(n_assign * max(1, int(hi) - int(lo) + 1), 10_000)
+    if _worker_budget_hits[0] >= WORKER_BUDGET_HIT_LIMIT:
+        raise budget.BudgetExceeded("worker run skipped after repeated exhausted step budgets in this process")
+    budget.start(min(20_000_000, 600_000 + 12_000 * n_assign))
     try:
         getattr(child, target_name)(*args, q)
+    except budget.BudgetExceeded:
+        _worker_budget_hits[0] += 1
+        raise
     finally:
         budget.stop()
-    final = child.statistics.copy()
-    return [(p, s, st, final) for p, s, st, _ in q.items]
+    final = child.statistics.copy()  # the worker's final statistics (what the property calls so)
+    # 4th field: the content, at the end of the process, of the very object that was put (what a lazily pickling feeder thread
+    # may send at the latest); 5th field: the worker's true final statistics
+    return [(p, s, st, np.array(obj, copy=True), final) for p, s, st, obj in q.items]
 
 
 def worker_stream_checked(solver, name, args):
